@@ -272,7 +272,7 @@ def gen_states(ints, order, features, forced=None):
         g.enums = ('Color', [e for e in ENUM if e != 'None'])
         g.consts = [('Limits', n_, OAL_TY[ty]) for n_, ty, _v in CONSTS] + [('Sizes', n_, OAL_TY[ty]) for n_, ty, _v in CONSTS2]
         g.const_style = 'namespaced'
-        g.arrays = g.refattrs = g.self_relates = True
+        g.arrays = g.refattrs = g.self_relates = g.case_twins = True
         g.param_kw = ['param', 'rcvd_evt']
         env = Env()
         if g.self_cls:
@@ -327,6 +327,7 @@ def gen_graph(ints, for_prebuild=False, logical_calls=False, states=None):
         if for_prebuild:
             g.consts = g.consts + [('Sizes', n, OAL_TY[ty]) for n, ty, _v in CONSTS2]
             g.self_relates = True
+            g.case_twins = True
         g.const_style = 'namespaced' if for_prebuild else 'plain'
         g.arrays = for_prebuild
         g.refattrs = for_prebuild
